@@ -58,7 +58,7 @@ record equal, an object filed in k cells comes back as k equal records — with 
 and the current format version.
 
 Full statement without `Uniq` is false of the code (F11, `C02_F11_witness`); without `ProperInts` the bytes of a
-second dump differ (F19, `C02_bool_int_witness`).
+second dump differ (F22, `C02_bool_int_witness`).
 -/
 theorem C02_readback_partial (m : ImgState)
     (hc : m.compose.validate = .ok ())
@@ -334,7 +334,7 @@ theorem C02_F11_witness :
     ∧ errIs (match (serialize wF11).2 with | .ok doc => deserialize doc | .error _ => .ok default) .valueError = true := by
   refine ⟨by rfl, by decide +kernel⟩
 
-/-- **F19**: a bool passes as the size, is written as `true` and read back as `1` -/
+/-- **F22**: a bool passes as the size, is written as `true` and read back as `1` -/
 theorem C02_bool_int_witness :
     Image.validate { wA with size := .bool true } = .ok ()
     ∧ errIs ((Image.deserialize (.str currentVersion) (Image.dict { wA with size := .bool true })).bind
@@ -357,8 +357,9 @@ example : errIs (match (serialize wGood).2 with | .ok doc => deserialize doc | .
   decide +kernel
 
 example : DistinctPaths wGood.cells := distinctPaths_of_pairwise _ (by decide +kernel)
-/-- the model's own cycle on `wGood`: the second text equals the first -/
-example : (dumps wGood).2 = (match (serialize wGood).2 with
+/-- the model's own cycle on a one-image manifest: the second text equals the first -/
+example : let w : ImgState := { compose := wCompose, cells := [(L "Server", [(L "x86_64", [(0, wC)])])] }
+    (dumps w).2 = (match (serialize w).2 with
     | .ok doc => (match deserialize (PyVal.canon doc) with | .ok m' => (dumps m').2 | .error e => .error e)
     | .error e => .error e) := by decide +kernel
 
